@@ -30,3 +30,13 @@ package routing
 //@     invariant outbound != nil && fresh(outbound) && outbound.Name == rawOutbound.Name
 //@     invariant outbound.Must <==> (exists k int :: 0 <= k && k < $idx && rawOutbound.Params[k].Key == "" && rawOutbound.Params[k].Val == "must")
 //@     invariant forall k int :: 0 <= k && k < $idx ==> rawOutbound.Params[k].Key == consts.OutboundParam_Mark || (rawOutbound.Params[k].Key == "" && rawOutbound.Params[k].Val == "must")
+
+// C12: a bare address literal is a host route of its own family (/128 when it is written with a ':',
+// /32 otherwise); a literal with an explicit length is taken as written; anything unparsable is an error.
+//@ func parsePrefixes
+//@   let norm(v string) = strings.LastIndexByte(v, '/') == -1 ? (strings.Contains(v, ":") ? cat(v, "/128") : cat(v, "/32")) : v
+//@   ensures err == nil ==> len(cidrs) == len(values) && (forall i int {cidrs[i]} :: 0 <= i && i < len(values) ==> nth(netip.ParsePrefix(norm(values[i])), 1) == nil && cidrs[i] == nth(netip.ParsePrefix(norm(values[i])), 0))
+//@   ensures err != nil ==> (exists i int :: 0 <= i && i < len(values) && nth(netip.ParsePrefix(norm(values[i])), 1) != nil)
+//@   loop 1
+//@     invariant cidrs == nil || fresh(cidrs)
+//@     invariant len(cidrs) == $idx && (forall k int {cidrs[k]} :: 0 <= k && k < $idx ==> nth(netip.ParsePrefix(norm(values[k])), 1) == nil && cidrs[k] == nth(netip.ParsePrefix(norm(values[k])), 0))
